@@ -104,7 +104,17 @@ pub fn gen_query(rng: &mut Rng, k: usize, _tier: &str) -> J {
     let where_ = if rng.chance(1, 4) { if from_orders { " WHERE qty > 2" } else if joined { " WHERE users.age > 30" } else { " WHERE age > 30" } } else { "" };
     let sel_keys: Vec<String> = keys.iter().enumerate().map(|(i, c)| format!("{c} AS k{i}")).collect();
     let mut items = sel_keys.clone(); items.extend(aggs);
-    let sql = format!("SELECT {} FROM {from}{where_}{}", items.join(", "), if keys.is_empty() { String::new() } else { format!(" GROUP BY {}", keys.join(", ")) });
+    let mut sql = format!("SELECT {} FROM {from}{where_}{}", items.join(", "), if keys.is_empty() { String::new() } else { format!(" GROUP BY {}", keys.join(", ")) });
+    // every sixth case: a DP sub-query joined back to a protected table and aggregated again (two aggregations, one event)
+    if k % 6 == 5 {
+        sql = match rng.below(4) {
+            0 => "WITH stats AS (SELECT avg(income) AS m FROM users) SELECT sum(income - m) AS a0 FROM users CROSS JOIN stats".to_string(),
+            1 => "WITH s AS (SELECT city AS c, avg(income) AS m FROM users GROUP BY city) SELECT sum(users.income - s.m) AS a0, count(users.id) AS a1 FROM users JOIN s ON users.city = s.c".to_string(),
+            2 => "WITH s AS (SELECT count(id) AS n FROM users) SELECT sum(amount) AS a0, count(orders.id) AS a1 FROM orders CROSS JOIN s".to_string(),
+            _ => "SELECT sum(x) AS a0 FROM (SELECT users.income - t.m AS x FROM users CROSS JOIN (SELECT avg(age) AS m FROM users) AS t) AS q".to_string(),
+        };
+        raw_aggs = vec![];
+    }
     let eps = *rng.pick(&[0.1, 0.5, 1.0, 2.0, 10.0]);
     let delta = *rng.pick(&[1e-3, 1e-5, 1e-8, 0.05]);
     let share = *rng.pick(&[0.5, 0.25, 0.75, 0.5, 0.1]);
@@ -177,9 +187,13 @@ pub fn eval_query(case: &J) -> Outcome {
     }
     // ---- data for the model / oracle 3: per noise map, the (σ, C) of its sums
     let mut maps: Vec<Vec<(f64, f64)>> = vec![];
+    // nearest noise map above each noise map (None: outermost aggregation); a DP sub-query nested under another one is a separate
+    // aggregation with its own (ε, δ)
+    let mut parents: Vec<Option<usize>> = vec![];
     {
-        fn per_map(rel: &Relation, out: &mut Vec<Vec<(f64, f64)>>, seen: &mut Vec<*const Relation>) {
+        fn per_map(rel: &Relation, out: &mut Vec<Vec<(f64, f64)>>, parents: &mut Vec<Option<usize>>, anc: Option<usize>, seen: &mut Vec<*const Relation>) {
             let ptr = rel as *const Relation; if seen.contains(&ptr) { return; } seen.push(ptr);
+            let mut anc = anc;
             if let Relation::Map(m) = rel {
                 let mut v = vec![];
                 for (n, e) in m.named_exprs() { if ir::has_random(e) && ir::is_clamped(e) { if let Some(s) = ir::noise_sigma(e) {
@@ -187,25 +201,34 @@ pub fn eval_query(case: &J) -> Outcome {
                     let c = ir::noise_value_column(rel, n).and_then(|vn| f.clips.iter().find(|(cn, _)| *cn == vn).map(|(_, c)| *c));
                     v.push((s, c.unwrap_or(if s == 0.0 { 0.0 } else { -1.0 })));
                 } } }
-                if !v.is_empty() { out.push(v); }
+                if !v.is_empty() { out.push(v); parents.push(anc); anc = Some(out.len() - 1); }
             }
-            for i in rel.inputs() { per_map(i, out, seen); }
+            for i in rel.inputs() { per_map(i, out, parents, anc, seen); }
         }
-        per_map(rw.relation(), &mut maps, &mut vec![]);
+        per_map(rw.relation(), &mut maps, &mut parents, None, &mut vec![]);
     }
+    let nested = parents.iter().any(|p| p.is_some());
+    if nested { out.tag("nested-dp"); }
     // ---- oracle 3: basic composition within the (ε, δ) handed to the compiler: there must be a split of the aggregates' δ
     // over the noised sums such that the ε implied by each σ/C (classical calibration) sums to at most the aggregates' ε
     let (eps_t, delta_t) = if tau_used { eds.first().cloned().unwrap_or((eps * share, delta * share)) } else { (0.0, 0.0) };
     if !ratios.is_empty() && unmatched == 0 {
-        let live: Vec<Vec<f64>> = maps.iter().map(|m| m.iter().filter(|(s, c)| *s > 0.0 && *c > 0.0).map(|(s, c)| s / c).collect::<Vec<f64>>()).filter(|m: &Vec<f64>| !m.is_empty()).collect();
-        let d_agg = delta - delta_t;
-        let implied = |alloc: &Vec<Vec<f64>>| -> f64 { live.iter().zip(alloc.iter()).map(|(m, a)| m.iter().zip(a.iter()).map(|(r, d)| (2.0 * (1.25 / d).ln()).sqrt() / r).sum::<f64>()).sum() };
-        let n_all: usize = live.iter().map(|m| m.len()).sum();
-        let even_sites: Vec<Vec<f64>> = live.iter().map(|m| m.iter().map(|_| d_agg / n_all as f64).collect()).collect();
-        let even_maps: Vec<Vec<f64>> = live.iter().map(|m| m.iter().map(|_| d_agg / (live.len() * m.len()) as f64).collect()).collect();
-        let best = implied(&even_sites).min(implied(&even_maps));
-        if best + eps_t > eps * (1.0 + 1e-9) {
-            out.fail("C03/dpquery/over-budget", format!("{sql} with {:?}: the noise applied implies at least ε = {best} for the aggregates (δ split evenly over sums, or over distinct-groups then sums) plus {eps_t} for thresholding, more than the ε = {eps} handed to the compiler", p));
+        // one budget per aggregation: the noise maps that share their nearest enclosing noise map
+        let mut levels: Vec<Option<usize>> = parents.clone(); levels.sort(); levels.dedup();
+        for level in levels {
+            let live: Vec<Vec<f64>> = maps.iter().zip(parents.iter()).filter(|(_, p)| **p == level).map(|(m, _)| m.iter().filter(|(s, c)| *s > 0.0 && *c > 0.0).map(|(s, c)| s / c).collect::<Vec<f64>>()).filter(|m: &Vec<f64>| !m.is_empty()).collect();
+            if live.is_empty() { continue; }
+            // thresholding is charged to the outermost aggregation only when the query is not nested (which aggregation a threshold belongs to is not tracked)
+            let (eps_t, delta_t) = if nested { (0.0, 0.0) } else { (eps_t, delta_t) };
+            let d_agg = delta - delta_t;
+            let implied = |alloc: &Vec<Vec<f64>>| -> f64 { live.iter().zip(alloc.iter()).map(|(m, a)| m.iter().zip(a.iter()).map(|(r, d)| (2.0 * (1.25 / d).ln()).sqrt() / r).sum::<f64>()).sum() };
+            let n_all: usize = live.iter().map(|m| m.len()).sum();
+            let even_sites: Vec<Vec<f64>> = live.iter().map(|m| m.iter().map(|_| d_agg / n_all as f64).collect()).collect();
+            let even_maps: Vec<Vec<f64>> = live.iter().map(|m| m.iter().map(|_| d_agg / (live.len() * m.len()) as f64).collect()).collect();
+            let best = implied(&even_sites).min(implied(&even_maps));
+            if best + eps_t > eps * (1.0 + 1e-9) {
+                out.fail("C03/dpquery/over-budget", format!("{sql} with {:?}: the noise applied by one aggregation implies at least ε = {best} (δ split evenly over sums, or over distinct-groups then sums) plus {eps_t} for thresholding, more than the ε = {eps} handed to the compiler", p));
+            }
         }
     }
     let groups: Vec<J> = maps.iter().map(|m| json!(m.iter().map(|(s, c)| json!([s, c])).collect::<Vec<_>>())).collect();
@@ -223,7 +246,15 @@ pub fn eval_query(case: &J) -> Outcome {
         for k in kinds { sums.push(format!("{k}:{col}:{distinct}")); }
     }
     let mut dedup = sums.clone(); dedup.sort(); dedup.dedup();
-    if dedup.len() != sums.len() { out.tag("shared-sums"); out.imp = J::Null; }
+    // the Lean budget model describes one aggregation: nested DP sub-queries are judged by the oracles above only
+    if nested { out.imp = J::Null; }
+    else if dedup.len() != sums.len() { out.tag("shared-sums"); out.imp = J::Null; }
     else { out.imp = json!({"sigma_ok": unmatched == 0, "event_ok": true, "tau_ok": true}); }
     out
+}
+
+/// the noise multipliers of the Gaussian leaves of an event
+pub fn gaussians(ev: &DpEvent) -> Vec<f64> {
+    let mut lv = vec![]; leaves(ev, &mut lv);
+    lv.iter().filter_map(|e| if let DpEvent::Gaussian { noise_multiplier } = e { Some(*noise_multiplier) } else { None }).collect()
 }
